@@ -395,10 +395,13 @@ func TestVerifRegistryState(t *testing.T) {
 			steps = append(steps, map[string]interface{}{"ev": "End", "t": 1})
 			ncalls++
 			postBags, postDec := vBags(st, acc)
+			// no stored databag yet and an empty stored databag are the same abstract data
+			sameA := preBags["rega"] == postBags["rega"] ||
+				(preBags["rega"] == "" && postBags["rega"] == "{}") || (preBags["rega"] == "{}" && postBags["rega"] == "")
 			if reg == "regb" {
 				// not followed by the trace spec: one step during which rega's stored data must not move
 				emit(map[string]interface{}{"ev": "Other", "what": call, "call": call, "callres": callres, "reg": reg,
-					"last_of_call": true}, postDec, postBags, preBags["rega"] == postBags["rega"])
+					"last_of_call": true}, postDec, postBags, sameA)
 				continue
 			}
 			for j, s := range steps {
@@ -409,7 +412,7 @@ func TestVerifRegistryState(t *testing.T) {
 					emit(s, preDec, preBags, true)
 				} else if j == len(steps)-2 {
 					// the step that decides the call: the stored data after the call is its effect
-					emit(s, postDec, postBags, preBags["rega"] == postBags["rega"])
+					emit(s, postDec, postBags, sameA)
 				} else {
 					emit(s, postDec, postBags, true)
 				}
